@@ -3,6 +3,7 @@ package main
 import (
 	"fmt"
 	"go/ast"
+	"go/constant"
 	"go/token"
 	"go/types"
 	"os"
@@ -38,6 +39,7 @@ type normReport struct {
 	Literals  int      `json:"literalized"`
 	Mono      []string `json:"monomorphised_calls,omitempty"`
 	Renamed   []string `json:"renamed_back,omitempty"`
+	Canon     []string `json:"canonicalised_expressions,omitempty"`
 	LoadError string   `json:"load_error,omitempty"`
 }
 
@@ -116,6 +118,12 @@ func normalizeOverlay(dir, goarch string, overlay map[string][]byte) (map[string
 			rep.LoadError = err.Error()
 			// fall back to the un-normalised program: the rules then see the original
 			return overlay, rep
+		}
+		// expression canonicalisation (a no-op on the reference tree): spellings of one condition
+		// that differ only syntactically are brought to the form the tree itself uses
+		if n := canonExprs(pkgs, dir, cur, rep); n > 0 {
+			changed = true
+			continue
 		}
 		// candidates
 		type cand struct {
@@ -1133,4 +1141,190 @@ func substituteExprBody(callFset, declFset *token.FileSet, declInfo *types.Info,
 	out = append(out, []byte("("+body+")")...)
 	out = append(out, content[ce:]...)
 	return out, nil
+}
+
+// ---------------------------------------------------------------------------
+// expression canonicalisation
+//
+// canonExprs rewrites, in the non-test files of the module's packages, spellings of a condition that
+// are equal for every operand value into the one spelling the reference tree uses:
+//
+//	b == false, false == b, b != true  ->  !(b)          b == true, b != false  ->  (b)
+//	!(x OP y) for a comparison OP over non-floating operands  ->  (x OP' y)     !(!(x)) -> (x)
+//	len(s) == 0, len(s) < 1, len(s) <= 0 (s a string)  ->  (s == "")
+//	len(s) != 0, len(s) > 0, len(s) >= 1               ->  (s != "")   (also with the constant on the left)
+//
+// Operands are copied verbatim and keep their evaluation order. It returns the number of rewrites
+// applied (outermost first; nested ones are handled by the next round, which reloads the overlay).
+func canonExprs(pkgs []*packages.Package, dir string, cur map[string][]byte, rep *normReport) int {
+	total := 0
+	for _, p := range pkgs {
+		if p.PkgPath != modPath && p.PkgPath != parserPath {
+			continue
+		}
+		for _, f := range p.Syntax {
+			fname := p.Fset.Position(f.Pos()).Filename
+			if strings.HasSuffix(fname, "_test.go") {
+				continue
+			}
+			content, ok := cur[fname]
+			if !ok {
+				b, err := os.ReadFile(fname)
+				if err != nil {
+					continue
+				}
+				content = b
+			}
+			type edit struct {
+				a, b int
+				text string
+			}
+			var edits []edit
+			off := func(pos token.Pos) int { return p.Fset.Position(pos).Offset }
+			src := func(e ast.Expr) string { return string(content[off(e.Pos()):off(e.End())]) }
+			boolConst := func(e ast.Expr) (val, ok bool) {
+				tv, has := p.TypesInfo.Types[e]
+				if !has || tv.Value == nil || tv.Value.Kind() != constant.Bool {
+					return false, false
+				}
+				return constant.BoolVal(tv.Value), true
+			}
+			intConst := func(e ast.Expr) (int64, bool) {
+				tv, has := p.TypesInfo.Types[e]
+				if !has || tv.Value == nil || tv.Value.Kind() != constant.Int {
+					return 0, false
+				}
+				return constant.Int64Val(tv.Value)
+			}
+			isBool := func(e ast.Expr) bool {
+				t := p.TypesInfo.TypeOf(e)
+				if t == nil {
+					return false
+				}
+				b, ok := t.Underlying().(*types.Basic)
+				return ok && b.Info()&types.IsBoolean != 0
+			}
+			isFloaty := func(e ast.Expr) bool {
+				t := p.TypesInfo.TypeOf(e)
+				if t == nil {
+					return true
+				}
+				b, ok := t.Underlying().(*types.Basic)
+				if !ok {
+					return false // pointers, interfaces, channels, structs: == and != only, negation is exact
+				}
+				return b.Info()&(types.IsFloat|types.IsComplex) != 0
+			}
+			strLenArg := func(e ast.Expr) (ast.Expr, bool) {
+				call, ok := ast.Unparen(e).(*ast.CallExpr)
+				if !ok || len(call.Args) != 1 {
+					return nil, false
+				}
+				id, ok := call.Fun.(*ast.Ident)
+				if !ok || id.Name != "len" {
+					return nil, false
+				}
+				if _, isBuiltin := p.TypesInfo.Uses[id].(*types.Builtin); !isBuiltin {
+					return nil, false
+				}
+				t := p.TypesInfo.TypeOf(call.Args[0])
+				if t == nil {
+					return nil, false
+				}
+				b, ok := t.Underlying().(*types.Basic)
+				if !ok || b.Info()&types.IsString == 0 {
+					return nil, false
+				}
+				if tv, has := p.TypesInfo.Types[call.Args[0]]; has && tv.Value != nil {
+					return nil, false // len of a constant string is itself a constant
+				}
+				return call.Args[0], true
+			}
+			negOp := map[token.Token]token.Token{token.EQL: token.NEQ, token.NEQ: token.EQL, token.LSS: token.GEQ, token.GEQ: token.LSS, token.GTR: token.LEQ, token.LEQ: token.GTR}
+			flip := map[token.Token]token.Token{token.EQL: token.EQL, token.NEQ: token.NEQ, token.LSS: token.GTR, token.GTR: token.LSS, token.LEQ: token.GEQ, token.GEQ: token.LEQ}
+			var visit func(n ast.Node) bool
+			visit = func(n ast.Node) bool {
+				switch e := n.(type) {
+				case *ast.BinaryExpr:
+					if e.Op == token.EQL || e.Op == token.NEQ {
+						x, y := e.X, e.Y
+						cv, isC := boolConst(y)
+						if !isC {
+							if cv2, isC2 := boolConst(x); isC2 {
+								x, y, cv, isC = e.Y, e.X, cv2, true
+							}
+						}
+						if isC && isBool(x) {
+							if _, both := boolConst(x); !both {
+								positive := (e.Op == token.EQL) == cv
+								if positive {
+									edits = append(edits, edit{off(e.Pos()), off(e.End()), "(" + src(x) + ")"})
+								} else {
+									edits = append(edits, edit{off(e.Pos()), off(e.End()), "!(" + src(x) + ")"})
+								}
+								return false
+							}
+						}
+					}
+					if _, isCmp := negOp[e.Op]; isCmp {
+						op, l, r := e.Op, e.X, e.Y
+						if _, lc := intConst(l); lc {
+							op, l, r = flip[op], r, l
+						}
+						if k, rc := intConst(r); rc {
+							if s, isLen := strLenArg(l); isLen {
+								verdict := ""
+								switch {
+								case (op == token.EQL && k == 0) || (op == token.LSS && k == 1) || (op == token.LEQ && k == 0):
+									verdict = "=="
+								case (op == token.NEQ && k == 0) || (op == token.GTR && k == 0) || (op == token.GEQ && k == 1):
+									verdict = "!="
+								}
+								if verdict != "" {
+									edits = append(edits, edit{off(e.Pos()), off(e.End()), "(" + src(s) + " " + verdict + ` "")`})
+									return false
+								}
+							}
+						}
+					}
+				case *ast.UnaryExpr:
+					if e.Op == token.NOT {
+						inner := ast.Unparen(e.X)
+						if u, ok := inner.(*ast.UnaryExpr); ok && u.Op == token.NOT {
+							edits = append(edits, edit{off(e.Pos()), off(e.End()), "(" + src(u.X) + ")"})
+							return false
+						}
+						if b, ok := inner.(*ast.BinaryExpr); ok {
+							if nop, isCmp := negOp[b.Op]; isCmp && !isFloaty(b.X) && !isFloaty(b.Y) {
+								if _, c1 := boolConst(b.X); !c1 {
+									if _, c2 := boolConst(b.Y); !c2 {
+										edits = append(edits, edit{off(e.Pos()), off(e.End()), "(" + src(b.X) + " " + nop.String() + " " + src(b.Y) + ")"})
+										return false
+									}
+								}
+							}
+						}
+					}
+				}
+				return true
+			}
+			for _, d := range f.Decls {
+				if fd, ok := d.(*ast.FuncDecl); ok && fd.Body != nil {
+					ast.Inspect(fd.Body, visit)
+				}
+			}
+			if len(edits) == 0 {
+				continue
+			}
+			sort.Slice(edits, func(i, j int) bool { return edits[i].a > edits[j].a })
+			nb := append([]byte(nil), content...)
+			for _, ed := range edits {
+				rep.Canon = append(rep.Canon, fmt.Sprintf("%s: %s -> %s", shortPos(dir, p.Fset, p.Fset.File(f.Pos()).Pos(ed.a)), string(content[ed.a:ed.b]), ed.text))
+				nb = append(nb[:ed.a], append([]byte(ed.text), nb[ed.b:]...)...)
+			}
+			cur[fname] = nb
+			total += len(edits)
+		}
+	}
+	return total
 }
